@@ -1,8 +1,41 @@
-import Cirbo.Basic
-/-! # C04 (placeholder until the theorems are in)
--- OBLIGATION: c04_placeholder
+import Cirbo.Proofs.Pattern
+import Cirbo.Proofs.Synth
+/-!
+# C04 — SAT-based subcircuit minimisation returns an equivalent, not larger circuit
+
+-- OBLIGATION: c04_leaf_patterns
+-- OBLIGATION: c04_eval_pattern_is_bitwise_evaluation
+-- OBLIGATION: c04_synthesised_cone_agrees
+-- PARTIAL: proved: the pattern primitives of the cone simulation (leaf patterns enumerate all leaf assignments; eval_pattern is the gate's Boolean function bit by bit, for every supported type incl. n-ary gates) and — through C06 — that any cone returned by exact synthesis agrees with the requested table on every entry that is not a don't-care, with exactly size-1 gates of the basis. NOT proved (decided on every run by the search over the real minimize_subcircuits with admissible cut families, all bases and parameter settings, truth-table / interface / size comparison and enable_validation): soundness of the don't-care extraction over reachable leaf vectors, of the trivial-output shortcut, of the splice through replace_subcircuit (modelled and compared in C19), and of the driver loop over node states. The algorithm depends on Python set iteration order; it is not modelled as a whole. One open known finding (dead logic reading an improved cone) is listed in known_findings.json.
 -/
 namespace Cirbo
-theorem c04_placeholder : True := trivial
-#print axioms c04_placeholder
+open Pattern Synth
+
+/-- `_generate_inputs_tt(size)`: bit `i` of leaf `j`'s pattern is bit `j` of `i` — the patterns
+enumerate every assignment of the leaves, each exactly once -/
+theorem c04_leaf_patterns (size j i : Nat) (hi : i < 2 ^ size) :
+    (leafPattern size j).testBit i = i.testBit j ∧ leafPattern size j < 2 ^ (2 ^ size) :=
+  leafPattern_testBit size j i hi
+
+/-- `eval_pattern`: for every supported gate type at an accepted arity, bit `i` of the result is the
+gate's Boolean function of bit `i` of its operands' patterns; so simulating a cone gate by gate in
+topological order gives every gate its value under every leaf assignment -/
+theorem c04_eval_pattern_is_bitwise_evaluation (k : Nat) (ty : GateType) (ops : List Nat) (p : Nat)
+    (h : evalPattern k ty ops = .ok p) (hops : ∀ x ∈ ops, x < 2 ^ (2 ^ k)) (har : arityOk ty ops.length = true) :
+    p < 2 ^ (2 ^ k) ∧ ∀ i, i < 2 ^ k → bfun ty (bitsAt ops i) = some (p.testBit i) :=
+  evalPattern_sound k ty ops p h hops har
+
+/-- the replacement cone: whatever exact synthesis returns for the table with don't-cares has the
+requested number of gates of the basis and agrees with every defined entry (C06 soundness) -/
+theorem c04_synthesised_cone_agrees (sp : Spec) (σ : SVar → Bool) (hc : sp.cons = []) (h : sat σ (encode sp)) :
+    SolOk sp (decode sp σ) := encode_sound sp σ (by rw [hc]; intro c hc'; cases hc') h
+
+/-! Non-vacuity: the two leaf patterns for two leaves are 0b1010 and 0b1100; AND gives 0b1000 -/
+example : genInputsTT 2 = [10, 12] := by decide
+example : (evalPattern 2 .AND [10, 12]).toOption = some 8 ∧ (evalPattern 2 .NAND [10, 12, 12]).toOption = some 7 := by decide
+
+#print axioms c04_leaf_patterns
+#print axioms c04_eval_pattern_is_bitwise_evaluation
+#print axioms c04_synthesised_cone_agrees
+
 end Cirbo
